@@ -172,3 +172,36 @@ INIT_BOX = REG_B.add(Contract(
     props=("C03",),
     note="instance without extra random-walk keyword arguments; numpy.mgrid (the start grid) and inspect.getfullargspec are opaque values; round(x, 5) is a "
          "function of x that is a multiple of 1e-5 within 0.5e-5 of x; _compute_box_size through its proved contract"))
+
+
+def _outer_interp(args):
+    top = args["topology"]
+    masses = []
+    for mm in top["molecules"]:
+        tot = 0.0
+        for a in mm["molecule"]["nodes"].values():
+            tot += a["mass"] if a["mass"] is not None else top["atom_types"][a["atype"]]["mass"]
+        masses.append(tot)
+    pre = [0.0]
+    for m in masses:
+        pre.append(pre[-1] + m)
+    return {"mass_of_first_molecules": lambda i: pre[int(i)] if 0 <= int(i) < len(pre) else 0.0}
+
+
+BOX.ghost_interp = _outer_interp
+
+
+def _adapt_box(a):
+    import networkx as nx
+    from types import SimpleNamespace
+    top = a["topology"]
+    mols = []
+    for mm in top["molecules"]:
+        g = nx.Graph()
+        for k, at in mm["molecule"]["nodes"].items():
+            g.add_node(k, **{f: v for f, v in at.items() if v is not None})
+        mols.append(SimpleNamespace(molecule=g))
+    return {"topology": SimpleNamespace(molecules=mols, atom_types={k: dict(v) for k, v in top["atom_types"].items()}), "density": a["density"]}
+
+
+BOX.adapt = _adapt_box
